@@ -20,5 +20,65 @@ for case in payload["cases"]:
         out.append({"ok": True, "obs": obs})
     except Exception as e:  # recorded outcome, decided by the harness
         out.append({"ok": False, "error": "%s: %s" % (type(e).__name__, e), "obs": obs})
+
+
+# ---- pipeline level: mixed_rank_graph over a sequence of batches, evaluated pairs read off the emitted rows ----
+import numpy as np  # noqa: E402
+import pandas as pd  # noqa: E402
+
+
+class _Res:
+    def __init__(self, v):
+        self.v = v
+
+    def ready(self):
+        return True
+
+    def get(self):
+        return self.v
+
+
+class FakePool:
+    def __enter__(self):
+        return self
+
+    def __exit__(self, *a):
+        return False
+
+    def amap(self, f, xs):
+        return _Res([f(x) for x in xs])
+
+
+class FakeBar:
+    def set_description(self, *a, **k):
+        pass
+
+    def update(self, *a, **k):
+        pass
+
+
+pipe_out = []
+for case in payload.get("pipe_cases", []):
+    cr.GLOBAL_PRIOR_COMB_COUNTS.clear()
+    rs = np.random.RandomState(case["seed"])
+    cols = case["columns"]
+    obs = []
+    try:
+        for cap in case["caps"]:
+            args = types.SimpleNamespace(
+                heuristic=case["heuristic"], target_ranking_only=case["target_only"], label_column=case["label"],
+                combination_number_upper_bound=cap, reference_model_JSON="", mi_stratified_sampling_ratio=1.0)
+            df = pd.DataFrame({c: [str(v) for v in rs.randint(0, 3, size=case["nrows"])] for c in cols})
+            cands = cr.get_combinations_from_columns(df.columns, types.SimpleNamespace(**vars(args)))
+            res = cr.mixed_rank_graph(df, args, FakePool(), FakeBar())
+            rows = [[a, b, float(s)] for a, b, s in res.triplet_scores]
+            counter = [[list(k), int(v)] for k, v in cr.GLOBAL_PRIOR_COMB_COUNTS.items()]
+            obs.append({"cands": [list(c) for c in cands], "rows": rows, "counter": counter,
+                        "cap_after": args.combination_number_upper_bound})
+        export = {str(k): v for k, v in cr.GLOBAL_PRIOR_COMB_COUNTS.items()}
+        pipe_out.append({"ok": True, "obs": obs, "export_keys": sorted(export.keys())})
+    except Exception as e:
+        import traceback
+        pipe_out.append({"ok": False, "error": "%s: %s" % (type(e).__name__, e), "tb": traceback.format_exc()[-1500:], "obs": obs})
 cr.GLOBAL_PRIOR_COMB_COUNTS.clear()
-print("@@RESULT " + json.dumps({"results": out}))
+print("@@RESULT " + json.dumps({"results": out, "pipe": pipe_out}))
